@@ -1,7 +1,7 @@
 (* C17 - property theorems.  Statements, [exact], [Print Assumptions]; nothing else. *)
-From Coq Require Import List ZArith Bool QArith.
+From Coq Require Import List ZArith Bool QArith Reals.
 Import ListNotations.
-From NessaiV Require Import Model.C17_Threshold Proofs.C17_Threshold_proofs.
+From NessaiV Require Import Model.C17_Quantile Proofs.C17_Quantile_proofs Model.C17_Threshold Proofs.C17_Threshold_proofs.
 Local Open Scope Z_scope.
 
 (* The threshold is the likelihood of one of the live samples: the clamped index is in range.
@@ -102,3 +102,27 @@ Example C17_nonvacuous :
   clamp 1 20 5 4 0 10 false = RetIndex 4 /\ clamp 2 20 5 1 25 10 true = RetIndex 5 /\
   clamp 0 20 5 1 0 10 false = RetIndex 1.
 Proof. vm_compute. repeat split. Qed.
+
+(* ---- the normalisation inside weighted_quantile (over the reals; B = scipy's betainc is arbitrary) -------------------- *)
+Local Open Scope R_scope.
+(* a common offset of the log-weights changes nothing: normalised weights, effective sample size, end points, quantile *)
+Theorem C17_quantile_shift :
+  forall (B : R -> R -> R -> R) (q : R) (vals : list R) (c : R) (lw : list R),
+    nw (map (Rplus c) lw) = nw lw /\ neff (map (Rplus c) lw) = neff lw /\
+    wquant B q vals (map (Rplus c) lw) = wquant B q vals lw.
+Proof. intros. split; [apply nw_shift|split; [apply neff_shift|apply wquant_shift]]. Qed.
+Print Assumptions C17_quantile_shift.
+
+(* equal log-weights, whatever their common value: every weight is 1/n, the effective sample size is n and the quantile
+   is the one computed with no weights at all - the ordinary (Harrell-Davis) quantile with a = q (n+1), b = (1-q) (n+1) *)
+Theorem C17_quantile_equal_weights :
+  forall (B : R -> R -> R -> R) (q : R) (vals : list R) (c : R) (n : nat), (0 < n)%nat ->
+    nw (repeat c n) = repeat (/ INR n) n /\ neff (repeat c n) = INR n /\
+    wquant B q vals (repeat c n) = wquant B q vals (repeat 0 n).
+Proof. intros B q vals c n Hn. split; [now apply nw_equal|split; [now apply neff_equal|apply wquant_equal]]. Qed.
+Print Assumptions C17_quantile_equal_weights.
+
+(* the normalised weights sum to one (so the last end point is 1, the hypothesis of C17_quantile_convex) *)
+Theorem C17_weights_normalised : forall lw : list R, lw <> [] -> rsum (nw lw) = 1.
+Proof. exact nw_sum_one. Qed.
+Print Assumptions C17_weights_normalised.
